@@ -27,6 +27,12 @@
 //	rst <rid> <final> <reliable> <now>       => ok | gone | E:..   (RESET_STREAM / RESET_STREAM_AT received)
 //	rd <rid> <n>                             => n=<k> ok|eof|E:cancel|E:reset|E:other
 //	cancel <rid>                             => ok
+//	rdb <rid> <n>                            => started          (a Read in its own goroutine: it may park in readImpl's wait loop)
+//	batch <op> ; <op> [; <op>]               => <res> ; <res> …  (frame / rst / cancel / smax / cmax / cw executed back to back: a
+//	     parked Read or Write is woken by the first but — the driver runs on one P — only gets to run after the last)
+//
+// a Read started by rdb that has returned is reported as ` rdone:<rid>:<k>:<ok|eof|E:…>` at the end of the result of the
+// operation after which it was found finished.
 //	cupd <now>                               => <v>            (MAX_DATA step of Conn.sendPackets)
 //
 // every result is followed by ` | c=<connection controller dump>`.
@@ -37,6 +43,7 @@ import (
 	"fmt"
 	"io"
 	"os"
+	"runtime"
 	"sort"
 	"strconv"
 	"strings"
@@ -76,6 +83,13 @@ type recvSt struct {
 	cancelled bool
 	reset     bool
 	dead      bool // EOF or error was returned
+	reading   bool // a Read goroutine (rdb) is running
+	rdone     chan rdResult
+}
+
+type rdResult struct {
+	k   int
+	err error
 }
 
 type outFrame struct {
@@ -96,6 +110,7 @@ type runner struct {
 	adv    [3]int64 // spec mode: advertised bidi_local, bidi_remote, uni (generator steering); -1 otherwise
 	spec   bool
 	out    []outFrame // outstanding STREAM frames
+	doneToks []string // finished rdb Reads not yet reported
 
 	now     int64
 	style   int
@@ -178,7 +193,15 @@ func (rn *runner) GenOp(r *vh.Rand, i int) string {
 	ss := rn.snd[si]
 	ri := r.Intn(len(rn.rcv))
 	rs := rn.rcv[ri]
-	switch r.Pick(14, 2, 7, 5, 22, 3, 2, 20, 4, 16, 2, 7, 3, 2) {
+	switch r.Pick(14, 2, 7, 5, 22, 3, 2, 20, 4, 16, 2, 7, 3, 2, 5, 6) {
+	case 14: // a Read in its own goroutine, preferably on a stream where it has to wait
+		for try := 0; try < 4 && (rs.reading || rs.readable()); try++ {
+			ri = r.Intn(len(rn.rcv))
+			rs = rn.rcv[ri]
+		}
+		return fmt.Sprintf("rdb %d %d", ri, []int64{r.Range(1, 100), r.Range(100, 2000), 100_000}[r.Intn(3)])
+	case 15:
+		return rn.genBatch(r, ri, si)
 	case 12:
 		return fmt.Sprintf("rb %d", si)
 	case 13:
@@ -374,6 +397,97 @@ func (rn *runner) GenOp(r *vh.Rand, i int) string {
 	}
 }
 
+// genBatch: two or three events handled back to back (one packet carrying several frames, or the application acting
+// between the arrival of a frame and the moment a parked Read / Write gets to run): preferably on a receive stream
+// with a parked Read — the rest of the stream (with FIN) / a reset / CancelRead in every order — or on a send stream
+// with a parked Write — MAX_STREAM_DATA / MAX_DATA / CancelWrite.
+func (rn *runner) genBatch(r *vh.Rand, ri, si int) string {
+	for i, s := range rn.rcv {
+		if s.reading && r.Chance(70) {
+			ri = i
+		}
+	}
+	for i, s := range rn.snd {
+		if s.writing && r.Chance(70) {
+			si = i
+		}
+	}
+	rs, ss := rn.rcv[ri], rn.snd[si]
+	var ops []string
+	if r.Chance(25) { // send side
+		cur := field(quic.VerifFCSendDump(ss.s), 1)
+		var tot int64
+		for _, s := range rn.snd {
+			tot += s.newEnd
+		}
+		perm := []int{0, 1, 2}
+		for i := 2; i > 0; i-- {
+			j := r.Intn(i + 1)
+			perm[i], perm[j] = perm[j], perm[i]
+		}
+		for _, k := range perm[:2+r.Intn(2)] {
+			switch k {
+			case 0:
+				ops = append(ops, fmt.Sprintf("smax %d %d", si, max(cur, ss.newEnd)+r.Range(1, 3000)))
+			case 1:
+				ops = append(ops, fmt.Sprintf("cmax %d", tot+int64(rn.conn.SendWindowSize())+r.Range(1, 5000)))
+			default:
+				ops = append(ops, fmt.Sprintf("cw %d", si))
+			}
+		}
+		return "batch " + strings.Join(ops, " ; ")
+	}
+	hr, lim, climRoom := rn.recvRoom(ri)
+	room := max(min(lim-hr, climRoom), 0)
+	end := max(hr, rs.avail()) // where in-order data continues
+	final := rs.final
+	n := 2 + r.Intn(2)
+	cancelled := rs.cancelled
+	for try := 0; len(ops) < n && try < 12; try++ {
+		k := r.Pick(50, 30, 20)
+		if final >= 0 && end >= final && k == 0 {
+			k = 1
+		}
+		if k == 1 && cancelled {
+			continue
+		}
+		switch k {
+		case 0: // the next in-order piece, often the last one
+			ln := r.Range(1, max(min(room, 600), 1))
+			if ln > room {
+				ln = room
+			}
+			fin := 0
+			if final >= 0 {
+				ln = min(ln, max(final-end, 0))
+				if end+ln == final {
+					fin = 1
+				}
+			} else if r.Chance(60) {
+				fin, final = 1, end+ln
+			}
+			ops = append(ops, fmt.Sprintf("frame %d %d %d %d %d", ri, end, ln, fin, rn.now))
+			end += ln
+			room -= ln
+		case 1:
+			ops = append(ops, fmt.Sprintf("cancel %d", ri))
+			cancelled = true
+		default:
+			fs := final
+			if fs < 0 {
+				fs = end + r.Range(0, min(room, 300))
+				final = fs
+			}
+			rel := []int64{0, 0, rs.readPos, r.Range(0, fs), fs}[r.Intn(5)]
+			ops = append(ops, fmt.Sprintf("rst %d %d %d %d", ri, fs, min(rel, fs), rn.now))
+		}
+	}
+	if len(ops) == 0 {
+		return fmt.Sprintf("cupd %d", rn.now)
+	}
+	return "batch " + strings.Join(ops, " ; ")
+}
+
 func field(dump string, i int) int64 {
 	f := strings.Split(dump, "/")
 	if i < len(f) {
@@ -420,6 +534,45 @@ func (rn *runner) settle() {
 			}
 		}
 	}
+	for i, s := range rn.rcv {
+		if s.reading {
+			select {
+			case d := <-s.rdone:
+				s.reading = false
+				rn.doneToks = append(rn.doneToks, fmt.Sprintf("rdone:%d:%d:%s", i, d.k, s.readResult(d.k, d.err)))
+			default:
+			}
+		}
+	}
+}
+
+// readResult books a finished Read and names its outcome.
+func (s *recvSt) readResult(k int, err error) string {
+	s.readPos += int64(k)
+	var se *quic.StreamError
+	switch {
+	case err == nil:
+		return "ok"
+	case err == io.EOF:
+		s.dead = true
+		return "eof"
+	case errors.As(err, &se) && se.Remote:
+		s.dead = true
+		return "E:reset"
+	case errors.As(err, &se):
+		s.dead = true
+		return "E:cancel"
+	}
+	return "E:other"
+}
+
+func (rn *runner) takeDone() string {
+	if len(rn.doneToks) == 0 {
+		return ""
+	}
+	t := " " + strings.Join(rn.doneToks, " ")
+	rn.doneToks = nil
+	return t
 }
 
 func addInterval(ivs [][2]int64, a, b int64) [][2]int64 {
@@ -465,14 +618,41 @@ func (rn *runner) addSend(s *quic.SendStream, id protocol.StreamID) int {
 }
 
 func (rn *runner) addRecv(s *quic.ReceiveStream, id protocol.StreamID, advLimit int64) int {
-	rn.rcv = append(rn.rcv, &recvSt{s: s, id: id, final: -1, advLimit: advLimit})
+	rn.rcv = append(rn.rcv, &recvSt{s: s, id: id, final: -1, advLimit: advLimit, rdone: make(chan rdResult, 1)})
 	rn.ridx[id] = len(rn.rcv) - 1
 	return len(rn.rcv) - 1
 }
 
 var debugOps = os.Getenv("FC_DEBUG") != ""
 
+var batchable = map[string]bool{"frame": true, "rst": true, "cancel": true, "smax": true, "cmax": true, "cw": true}
+
 func (rn *runner) Exec(op string) string {
+	if strings.HasPrefix(op, "batch ") {
+		if rn.conn == nil {
+			return "skip"
+		}
+		var outs []string
+		for _, sub := range strings.Split(op[len("batch "):], " ; ") {
+			if f := strings.Fields(sub); len(f) == 0 || !batchable[f[0]] {
+				outs = append(outs, "skip")
+				continue
+			}
+			outs = append(outs, rn.exec1(sub))
+		}
+		rn.settle()
+		return strings.Join(outs, " ; ") + rn.takeDone() + rn.suffix()
+	}
+	res := rn.exec1(op)
+	if res == "skip" || rn.conn == nil || strings.Contains(res, " | c=") {
+		return res
+	}
+	rn.settle()
+	return res + rn.takeDone() + rn.suffix()
+}
+
+// exec1 runs one operation; goroutines it wakes are not waited for.
+func (rn *runner) exec1(op string) string {
 	if debugOps { // a hang cannot be seen in the (buffered) .ops file
 		fmt.Fprintln(os.Stderr, "exec:", op)
 	}
@@ -841,30 +1021,23 @@ func (rn *runner) Exec(op string) string {
 			return "skip"
 		}
 		// Read blocks when nothing is readable and the stream is not finished: never call it then
-		readable := s.avail() > s.readPos || s.cancelled || s.dead || (s.reset && s.readPos >= s.reliable) ||
-			(!s.reset && s.final >= 0 && s.readPos >= s.final)
-		if !readable {
+		if !s.readable() || s.reading {
 			return "skip"
 		}
 		k, err := s.s.Read(make([]byte, n))
-		s.readPos += int64(k)
-		st := "ok"
-		var se *quic.StreamError
-		switch {
-		case err == nil:
-		case err == io.EOF:
-			st = "eof"
-			s.dead = true
-		case errors.As(err, &se) && se.Remote:
-			st = "E:reset"
-			s.dead = true
-		case errors.As(err, &se):
-			st = "E:cancel"
-			s.dead = true
-		default:
-			st = "E:other"
+		res = fmt.Sprintf("n=%d %s", k, s.readResult(k, err))
+	case "rdb":
+		s := ridx()
+		n := arg(2)
+		if s == nil || n <= 0 || n > 1<<20 || s.reading {
+			return "skip"
 		}
-		res = fmt.Sprintf("n=%d %s", k, st)
+		s.reading = true
+		go func() {
+			k, err := s.s.Read(make([]byte, n))
+			s.rdone <- rdResult{k, err}
+		}()
+		res = "started"
 	case "cancel":
 		s := ridx()
 		if s == nil {
@@ -878,8 +1051,13 @@ func (rn *runner) Exec(op string) string {
 	default:
 		return "skip"
 	}
-	rn.settle()
-	return res + rn.suffix()
+	return res
+}
+
+// readable: a Read would return without waiting
+func (s *recvSt) readable() bool {
+	return s.avail() > s.readPos || s.cancelled || s.dead || (s.reset && s.readPos >= s.reliable) ||
+		(!s.reset && s.final >= 0 && s.readPos >= s.final)
 }
 
 func (rn *runner) Close() {
@@ -900,5 +1078,8 @@ func b2i(b bool) int {
 }
 
 func TestDriver(t *testing.T) {
+	// one P: a goroutine woken by an operation (a parked Read / Write) runs only when the driver goroutine waits in
+	// settle(), so the operations of a `batch` are atomic with respect to it and the trace is reproducible
+	runtime.GOMAXPROCS(1)
 	synctest.Test(t, func(t *testing.T) { vh.Main(t, "flowcall", newRunner) })
 }
